@@ -35,6 +35,15 @@ type c06Pkt struct {
 	Payload string `json:"payload,omitempty"`
 	Any     bool   `json:"any,omitempty"`   // set the generic Any node (ignored for xml:)
 	Other   int    `json:"other,omitempty"` // which non-stanza packet
+	H       uint   `json:"h,omitempty"`     // kind "sma": the h of the stream-management answer <a h='..'/>
+}
+
+// c06Client: the Sender is a real *Client (the router applies a stream-management answer to its session
+// before dispatching it), with Held stanzas sent and awaiting acknowledgement when the packet arrives.
+type c06Client struct {
+	SM   bool `json:"sm,omitempty"`   // stream management enabled on the session (stanzas are held)
+	Held int  `json:"held,omitempty"` // stanzas sent before the packet arrives
+	Cut  bool `json:"cut,omitempty"`  // the connection is cut before the packet is routed: every further write fails
 }
 
 type c06In struct {
@@ -42,6 +51,7 @@ type c06In struct {
 	Pending []string       `json:"pending,omitempty"`
 	Ended   []string       `json:"ended,omitempty"` // ids of SendIQ requests whose context has ended (Err() != nil) while their entry is still registered (the clean-up goroutine has not run: Done() never fires)
 	Pkt     c06Pkt         `json:"pkt"`
+	Client  *c06Client     `json:"client,omitempty"`
 }
 
 type c06 struct{}
@@ -56,7 +66,7 @@ func (c06) Workers() int  { return 8 }
 // down (a fatal error no recover can catch) is still named by the check.
 func (c06) Journal() bool { return true }
 func (c06) Rule() string {
-	return "random route tables (0-6 routes x 0-3 matchers among Packet/StanzaType/IQNamespaces, 1-3 arguments each, catch-all routes at random positions, duplicated and overlapping routes, arguments in mixed case; mostly ASCII, the domain of the model's lower-casing, plus names that strings.ToLower folds onto ASCII ones or onto each other - U+0130 (dotted capital I) in Packet('\u0130Q'), U+017F (long s) in 'me\u017f\u017fage', U+212A (Kelvin sign), '\u00c9' against the type '\u00e9' - for which the model is handed the argument as strings.ToLower returns it) x one random packet (message/presence with assorted types incl. empty, *IQ of type get/set/result/error/other with payload nil / built by the library builders / zero-valued / custom namespace / parsed from XML (registered payload types, and types unknown to the registry such as ping / vCard / a mixed-case application namespace, which land in the generic Any node), with or without a generic Any node, and 10 kinds of non-stanza packets incl. SMAnswer - routed like the others for a Sender that is not a *Client), 0-2 pending IQ-result ids (clashing with the ids of requests as well as of responses), and in one case in five 1-2 ids of requests that have ENDED (context cancelled, entry still in IQResultRoutes because the clean-up goroutine is held back: a context whose Err() is non-nil and whose Done() never fires) - a response carrying such an id is a received packet like any other: first matching route exactly once, delivered to nobody, stale entry gone; a live pending request still takes its response and no handler runs; namespace arguments aim at the payload namespace verbatim or in another letter case; corpus: an unmatched get whose generic payload is nested 400000 levels (generated from the depth); the recording Sender serialises what it is given, as Client.Send / Component.Send do; distinct = distinct (matcher kinds and per-route verdict, packet class, pending hit); non-trivial = at least 2 routes and either a route other than the first is selected or nothing matches an IQ get/set"
+	return "random route tables (0-6 routes x 0-3 matchers among Packet/StanzaType/IQNamespaces, 1-3 arguments each, catch-all routes at random positions, duplicated and overlapping routes, arguments in mixed case; mostly ASCII, the domain of the model's lower-casing, plus names that strings.ToLower folds onto ASCII ones or onto each other - U+0130 (dotted capital I) in Packet('\u0130Q'), U+017F (long s) in 'me\u017f\u017fage', U+212A (Kelvin sign), '\u00c9' against the type '\u00e9' - for which the model is handed the argument as strings.ToLower returns it) x one random packet (message/presence with assorted types incl. empty, *IQ of type get/set/result/error/other with payload nil / built by the library builders / zero-valued / custom namespace / parsed from XML (registered payload types, and types unknown to the registry such as ping / vCard / a mixed-case application namespace, which land in the generic Any node), with or without a generic Any node, and 10 kinds of non-stanza packets incl. SMAnswer - routed like the others for a Sender that is not a *Client; in one case in twelve the Sender is a real *Client on an established session (stream management on or off, 0-4 stanzas sent and held, connection working or cut so that every write of the retransmission fails) and the packet an <a h/> with h below / equal to / beyond the number held, or any other packet: whatever the router does with the acknowledgement first (C10), the packet is still dispatched to the first accepting route exactly once), 0-2 pending IQ-result ids (clashing with the ids of requests as well as of responses), and in one case in five 1-2 ids of requests that have ENDED (context cancelled, entry still in IQResultRoutes because the clean-up goroutine is held back: a context whose Err() is non-nil and whose Done() never fires) - a response carrying such an id is a received packet like any other: first matching route exactly once, delivered to nobody, stale entry gone; a live pending request still takes its response and no handler runs; namespace arguments aim at the payload namespace verbatim or in another letter case; corpus: an unmatched get whose generic payload is nested 400000 levels (generated from the depth); the recording Sender serialises what it is given, as Client.Send / Component.Send do; distinct = distinct (matcher kinds and per-route verdict, packet class, pending hit); non-trivial = at least 2 routes and either a route other than the first is selected or nothing matches an IQ get/set"
 }
 
 // ---- packets -------------------------------------------------------------------------
@@ -123,9 +133,32 @@ func c06Build(d c06Pkt) stanza.Packet {
 			iq.Any = &stanza.Node{XMLName: xml.Name{Space: "urn:any", Local: "x"}}
 		}
 		return iq
+	case "sma":
+		return stanza.SMAnswer{H: d.H}
 	default:
 		return c06Others[d.Other%len(c06Others)]
 	}
+}
+
+// c06CutTransport: the stub transport, whose writes fail once the connection is cut.
+type c06CutTransport struct {
+	*stubTransport
+	mu2    sync.Mutex
+	cut    bool
+	failed int
+}
+
+func (t *c06CutTransport) Write(p []byte) (int, error) {
+	t.mu2.Lock()
+	cut := t.cut
+	if cut {
+		t.failed++
+	}
+	t.mu2.Unlock()
+	if cut {
+		return 0, fmt.Errorf("write: connection reset by peer")
+	}
+	return t.stubTransport.Write(p)
 }
 
 // facts about a packet, read off the Go value (for Input and the oracle)
@@ -334,7 +367,46 @@ func (c06) Run(inp interface{}) Sx {
 		}()
 	}
 
-	xmpp.VerifRoute(router, sender, pkt)
+	var tr *c06CutTransport
+	nBefore := 0
+	if in.Client != nil {
+		// a real *Client on an established session, with stanzas sent (and, with stream management, held)
+		cfg := &xmpp.Config{TransportConfiguration: xmpp.TransportConfiguration{Address: "localhost:1"}, Jid: "u@localhost",
+			Credential: xmpp.Password("p"), StreamManagementEnable: in.Client.SM, Insecure: true}
+		cl, err := xmpp.NewClient(cfg, router, func(error) {})
+		if err != nil {
+			return L(SBytes("newclient-failed"))
+		}
+		tr = &c06CutTransport{stubTransport: newStub(nil, nil)}
+		xmpp.VerifSetTransport(cl, tr)
+		sm := xmpp.SMState{}
+		if in.Client.SM {
+			sm = xmpp.SMState{Id: "sm", UnAckQueue: stanza.NewUnAckQueue()}
+		}
+		xmpp.VerifSetSession(cl, sm)
+		for i := 0; i < in.Client.Held; i++ {
+			msg := stanza.NewMessage(stanza.Attrs{To: "you@localhost", Type: stanza.MessageTypeChat})
+			msg.Body = fmt.Sprint("m", i)
+			_ = cl.Send(msg)
+		}
+		tr.mu2.Lock()
+		tr.cut = in.Client.Cut
+		tr.mu2.Unlock()
+		tr.stubTransport.mu.Lock()
+		nBefore = len(tr.stubTransport.writes)
+		tr.stubTransport.mu.Unlock()
+		xmpp.VerifRoute(router, cl, pkt)
+		// what the router itself answers is an <iq type='error'/>; retransmissions and <r/> (C10) are not observed here
+		tr.stubTransport.mu.Lock()
+		for _, w := range tr.stubTransport.writes[nBefore:] {
+			if strings.HasPrefix(strings.TrimSpace(w.Data), "<iq") {
+				sender.sent = append(sender.sent, L(Z(99), SBytes("iq-written")))
+			}
+		}
+		tr.stubTransport.mu.Unlock()
+	} else {
+		xmpp.VerifRoute(router, sender, pkt)
+	}
 
 	close(done)
 	wg.Wait()
@@ -405,7 +477,11 @@ func (c06) Input(inp interface{}) Sx {
 	case 2:
 		p = L(Z(2), c06Attrs(f.typ, f.id, f.fr, f.to), Opt(f.hasPayload, SBytes(f.ns)), Opt(f.any, SBytes(f.anyNs)))
 	default:
-		p = L(Z(3), Zi(in.Pkt.Other%len(c06Others)))
+		if in.Pkt.Kind == "sma" {
+			p = L(Z(3), Z(9)) // an SMAnswer, whatever its h: a non-stanza packet like the others
+		} else {
+			p = L(Z(3), Zi(in.Pkt.Other%len(c06Others)))
+		}
 	}
 	return L(LS(routes), c06Strs(in.Pending), p, c06Strs(in.Ended))
 }
@@ -636,6 +712,9 @@ func (c06) Key(inp interface{}) (string, bool) {
 		}
 	}
 	fmt.Fprintf(&b, "|%s/%s%s|%v%v", cls, typ, pl, w.pendingHit, w.endedHit)
+	if in.Client != nil {
+		fmt.Fprintf(&b, "|client%v%v%v", in.Client.SM, in.Client.Cut, in.Pkt.Kind == "sma" && int(in.Pkt.H) < in.Client.Held)
+	}
 	hist(fmt.Sprintf("routes:%d", len(in.Routes)))
 	if f.kind == 3 {
 		hist("pkt:other")
@@ -671,7 +750,18 @@ func (c06) Key(inp interface{}) (string, bool) {
 			}
 		}
 	}
-	if f.kind == 3 && in.Pkt.Other%len(c06Others) == 9 {
+	if in.Client != nil {
+		hist(fmt.Sprintf("sender:*Client sm=%v cut=%v", in.Client.SM, in.Client.Cut))
+		if in.Pkt.Kind == "sma" {
+			switch {
+			case int(in.Pkt.H) < in.Client.Held && in.Pkt.H < 1<<30:
+				hist("sma:h-below-held (retransmission)")
+			default:
+				hist("sma:h-covers-all")
+			}
+		}
+	}
+	if f.kind == 3 && in.Pkt.Kind != "sma" && in.Pkt.Other%len(c06Others) == 9 {
 		hist("pkt:other/SMAnswer")
 	}
 	nt := len(in.Routes) >= 2 && !w.pendingHit && (w.first > 0 || w.reply)
@@ -834,6 +924,14 @@ func (c06) Gen(r *rand.Rand, tier string) []interface{} {
 		// an SMAnswer is routed like any other non-stanza packet
 		c06In{Routes: [][]c06Matcher{{pm("packet", "iq")}, {pm("packet", "")}, {}}, Pkt: c06Pkt{Kind: "other", Other: 9}},
 		c06In{Routes: [][]c06Matcher{{pm("type", "get")}}, Pkt: c06Pkt{Kind: "other", Other: 9}},
+		// the Sender is a real *Client holding unacknowledged stanzas: an <a/> is applied to its session first and then dispatched
+		// like every received packet, also when the retransmission it triggers cannot be written (seeded C06-mut8)
+		c06In{Routes: [][]c06Matcher{{pm("packet", "iq")}, {pm("packet", "presence")}, {}}, Client: &c06Client{SM: true, Held: 3, Cut: true}, Pkt: c06Pkt{Kind: "sma", H: 1}},
+		c06In{Routes: [][]c06Matcher{{pm("packet", "iq")}, {pm("packet", "")}, {}}, Client: &c06Client{SM: true, Held: 3, Cut: true}, Pkt: c06Pkt{Kind: "sma", H: 2}},
+		c06In{Routes: [][]c06Matcher{{}}, Client: &c06Client{SM: true, Held: 3}, Pkt: c06Pkt{Kind: "sma", H: 1}},
+		c06In{Routes: [][]c06Matcher{{pm("type", "get")}, {}}, Client: &c06Client{SM: true, Held: 2, Cut: true}, Pkt: c06Pkt{Kind: "sma", H: 2}},
+		c06In{Routes: [][]c06Matcher{{pm("packet", "message")}}, Client: &c06Client{SM: true, Held: 2, Cut: true}, Pkt: c06Pkt{Kind: "sma", H: 0}},
+		c06In{Routes: [][]c06Matcher{{pm("packet", "iq")}}, Client: &c06Client{SM: true, Held: 1, Cut: true}, Pkt: get},
 		// a response for a request that has ended (entry not yet cleaned up) is a packet like any other: first matching route, once
 		c06In{Routes: [][]c06Matcher{{pm("packet", "iq")}}, Ended: []string{"1"}, Pkt: c06Pkt{Kind: "iq", Type: "result", Id: "1", From: "srv.example"}},
 		c06In{Routes: [][]c06Matcher{{pm("packet", "message")}, {pm("packet", "iq"), pm("type", "result", "error"), pm("ns", "jabber:iq:version")}, {pm("packet", "iq")}, {}}, Ended: []string{"abc"}, Pending: []string{"1"}, Pkt: c06Pkt{Kind: "iq", Type: "result", Id: "abc", From: "srv.example", Payload: "version"}},
@@ -883,7 +981,25 @@ func (c06) Gen(r *rand.Rand, tier string) []interface{} {
 				}
 			}
 		}
-		out = append(out, c06In{Routes: routes, Pending: pend, Ended: ended, Pkt: p})
+		var cl *c06Client
+		if r.Intn(12) == 0 {
+			cl = &c06Client{SM: r.Intn(4) != 0, Held: r.Intn(5), Cut: r.Intn(2) == 0}
+			if r.Intn(3) != 0 {
+				// an acknowledgement: of fewer stanzas than are held (a retransmission follows), of all, of more
+				p = c06Pkt{Kind: "sma", H: uint(r.Intn(cl.Held + 2))}
+				if r.Intn(10) == 0 {
+					p.H = ^uint(0) >> uint(r.Intn(2))
+				}
+			}
+			// (the route table was drawn for the packet before; a catch-all or Packet("") route is what accepts a nonza)
+			if p.Kind == "sma" && r.Intn(2) == 0 {
+				routes = append(routes, []c06Matcher{})
+			}
+			if p.Kind == "iq" && (p.Type == "get" || p.Type == "set") {
+				cl = nil // the automatic reply of a *Client goes to its transport, not to a recording Sender: not observed here
+			}
+		}
+		out = append(out, c06In{Routes: routes, Pending: pend, Ended: ended, Pkt: p, Client: cl})
 	}
 	return out
 }
